@@ -27,8 +27,10 @@ enum Feat {
     TrailingVarArg,
     AllowMissing,
     SubAliasHelp,
+    /// `--opt[=v]` with a delimiter and a missing-value default that contains the delimiter
+    OptMissingDelim,
 }
-const FEATS: [Feat; 14] = [
+const FEATS: [Feat; 15] = [
     Feat::InferSub,
     Feat::Precedence,
     Feat::ArgsConflictSub,
@@ -43,6 +45,7 @@ const FEATS: [Feat; 14] = [
     Feat::TrailingVarArg,
     Feat::AllowMissing,
     Feat::SubAliasHelp,
+    Feat::OptMissingDelim,
 ];
 
 struct Cfg {
@@ -59,12 +62,24 @@ fn configs(max_feats: usize) -> Vec<Cfg> {
         for last in [false, true] {
             for first in [false, true] {
                 for os in [false, true] {
+                  for lowidx in [false, true] {
+                    // low-index multiple: `<f>... <rest>` (multi-value positional before a required
+                    // single one); one variant of the plain shape only
+                    if lowidx && !(first && min == 1 && !last) {
+                        continue;
+                    }
                     for fset in subsets_upto(FEATS.len(), max_feats) {
                         let feats: Vec<Feat> = fset.iter().map(|i| FEATS[*i]).collect();
+                        if lowidx && feats.iter().any(|f| matches!(f, Feat::AllowMissing | Feat::TrailingVarArg | Feat::HyphenRest)) {
+                            continue;
+                        }
                         if feats.contains(&Feat::Delim) && feats.contains(&Feat::DelimDont) {
                             continue;
                         }
                         if feats.contains(&Feat::AllowMissing) && !first {
+                            continue;
+                        }
+                        if feats.contains(&Feat::OptMissingDelim) && feats.contains(&Feat::Opt1to2) {
                             continue;
                         }
                         let mut c = CmdSpec::new("prog");
@@ -78,6 +93,13 @@ fn configs(max_feats: usize) -> Vec<Cfg> {
                         let mut rest = ArgSpec::pos("rest", idx);
                         rest.num_args = Some((min, None));
                         rest.last = last;
+                        if lowidx {
+                            let f = c.arg_mut("f").unwrap();
+                            f.num_args = Some((1, None));
+                            f.required = true;
+                            rest.num_args = None;
+                            rest.required = true;
+                        }
                         if os {
                             rest.parser = Vp::Os;
                             if first {
@@ -109,18 +131,25 @@ fn configs(max_feats: usize) -> Vec<Cfg> {
                                 Feat::TrailingVarArg => rest.trailing_var_arg = true,
                                 Feat::AllowMissing => c.set(Setting::AllowMissingPositional),
                                 Feat::SubAliasHelp => sub.aliases.push("-h".into()),
+                                Feat::OptMissingDelim => {
+                                    let o = c.arg_mut("o").unwrap();
+                                    o.num_args = Some((0, Some(1)));
+                                    o.delimiter = Some(',');
+                                    o.default_missing = vec!["m,n".into()];
+                                }
                             }
                         }
                         c.args.push(rest);
                         c.subs.push(sub);
                         out.push(Cfg {
-                            name: format!("rest({}..){}{}{} {:?}", min, if last { " last" } else { "" }, if first { " after [f]" } else { "" }, if os { " os" } else { "" }, feats),
+                            name: if lowidx { format!("<f>... <rest>{} {:?}", if os { " os" } else { "" }, feats) } else { format!("rest({}..){}{}{} {:?}", min, if last { " last" } else { "" }, if first { " after [f]" } else { "" }, if os { " os" } else { "" }, feats) },
                             spec: c,
                             delim_split,
                             os,
                             nfeat: feats.len(),
                         });
                     }
+                  }
                 }
             }
         }
@@ -178,6 +207,19 @@ fn positional_values(ob: &Obs) -> Vec<Vec<u8>> {
 }
 
 fn judge(cfg: &Cfg, cmd: &clap::Command, prefix: &[Vec<u8>], tail: &[Vec<u8>], h: &mut Hist) -> Vec<(String, String)> {
+    // `<f>... <rest>` with a `--` that nothing follows: whether the value before it belongs to the
+    // multi-value or to the final positional is decided by a look-ahead nothing documents
+    let low_index = cfg.spec.arg("f").map(|f| f.num_args.is_some()).unwrap_or(false);
+    if tail.is_empty() && low_index {
+        h.bump("not-pinned/low-index-multiple-with-empty-tail");
+        return vec![];
+    }
+    // likewise a value directly followed by a flag: the look-ahead hands it to the final positional,
+    // after which the positionals cannot absorb a tail any more
+    if low_index && prefix.windows(2).any(|w| !w[0].starts_with(b"-") && w[1].starts_with(b"-")) {
+        h.bump("not-pinned/low-index-multiple-value-followed-by-flag");
+        return vec![];
+    }
     let mut line: Vec<Vec<u8>> = prefix.to_vec();
     line.push(b"--".to_vec());
     line.extend(tail.iter().cloned());
@@ -246,6 +288,23 @@ fn judge(cfg: &Cfg, cmd: &clap::Command, prefix: &[Vec<u8>], tail: &[Vec<u8>], h
                     format!("positionals {:?}, expected {:?}", got.iter().map(|v| show(v)).collect::<Vec<_>>(), want.iter().map(|v| show(v)).collect::<Vec<_>>()),
                 ));
             }
+            // the first positional keeps the first plain token given before `--` (documented for
+            // allow_missing_positional: `prog foo -- baz` gives foo=foo; ordinary order otherwise)
+            let plain_settings = [Setting::SubcommandPrecedenceOverArg, Setting::DontDelimitTrailingValues];
+            let rest_spec = cfg.spec.arg("rest");
+            let simple_rest = rest_spec.map(|r| r.delimiter.is_none() && !r.allow_hyphen_values && !r.trailing_var_arg).unwrap_or(false);
+            // (with allow_missing_positional a value directly followed by a flag may go to the last
+            // positional: not pinned)
+            let followed_by_flag = pos.first().and_then(|p0| prefix.iter().position(|t| t == p0)).and_then(|i| prefix.get(i + 1)).map(|t| t.starts_with(b"-")).unwrap_or(false);
+            if cfg.spec.arg("f").map(|f| f.num_args.is_none()).unwrap_or(false) && simple_rest && !pos.is_empty() && !tail.is_empty() && !followed_by_flag && cfg.spec.external.is_none() && !plain_settings.iter().any(|s| cfg.spec.has(*s)) {
+                let f = oa.args.get("f").filter(|a| a.source == Some(Src::Cli)).map(|a| a.flat()).unwrap_or_default();
+                if f != vec![pos[0].clone()] {
+                    bad.push((
+                        "a positional value given before `--` moved to another positional because a tail follows".into(),
+                        format!("f is {:?}, expected [{:?}]", f.iter().map(|v| show(v)).collect::<Vec<_>>(), show(&pos[0])),
+                    ));
+                }
+            }
             if let Some((n, _)) = &oa.sub {
                 bad.push(("a token after `--` was dispatched as a subcommand".into(), format!("subcommand {}", n)));
             }
@@ -277,6 +336,24 @@ fn judge(cfg: &Cfg, cmd: &clap::Command, prefix: &[Vec<u8>], tail: &[Vec<u8>], h
                         format!("line rejected with {} although the prefix alone parses and the tail is positional", e.kind),
                         e.rendered.lines().next().unwrap_or("").to_string(),
                     ));
+                }
+            } else if !tail.is_empty() {
+                // the prefix alone is not a complete line (a required positional is still open):
+                // acceptance must then depend on the *number* of tokens after `--`, not on what
+                // they look like
+                let mut plain: Vec<Vec<u8>> = prefix.to_vec();
+                plain.push(b"--".to_vec());
+                plain.extend(tail.iter().map(|_| b"v".to_vec()));
+                let splits = cfg.delim_split && tail.iter().any(|t| t.contains(&b','));
+                let justified = (e.kind == "InvalidUtf8" && tail_has_non_utf8 && !cfg.os) || splits;
+                if !justified {
+                    if let Outcome::Ok(_) = parse(cmd, &cfg.spec, &plain) {
+                        h.bump("err/same-line-with-plain-tail-parses");
+                        bad.push((
+                            format!("line rejected with {} although the same line with plain values after `--` parses", e.kind),
+                            e.rendered.lines().next().unwrap_or("").to_string(),
+                        ));
+                    }
                 }
             }
         }
